@@ -18,6 +18,7 @@ from __future__ import annotations
 
 import itertools
 import random
+import re
 
 ID = 'C19'
 LEVEL = 'exploration'
@@ -54,7 +55,20 @@ RULE = (
     'with kwargs, or inside assign(), 1-2 input columns, 1-2 outputs, 1..8 rows, per-row '
     'sleeps of rank x 2-3 ms in shuffled / reversed / increasing order. Mechanism keys '
     'of these classes are given by input class AND symptom (see the MECH_* constants); '
-    'every other failure of such a case gets a key of its own')
+    'every other failure of such a case gets a key of its own. Second widening: '
+    '(assign) assign(out, fn|None, in, fn_batch_size=a, batch_size=b) over all size '
+    'sequences of length <= 3 over sizes 0..3 x {list, tuple, ndarray} x 1-2 columns x '
+    '(a, b) in 8 settings, plus random streams (35% already cut to b: control class); '
+    'input class "misfit" = b > 0 and the input partition differs from the partition '
+    're-batching to b gives. (badrec) apply(strict fn, fn_batch_size=a, batch_size=b) '
+    'under ignore_error over all record sequences of length <= 4 over {1 row, 2 rows, '
+    'bad record} with >= 1 bad record x 5 kinds of bad record (list / tuple instead of a '
+    'dict, None column, scalar column, columns of unequal lengths) x 4 (a, b), plus '
+    'random streams of <= 12 records; each case first runs the twin without '
+    'fn_batch_size. (literal) apply(fn, inputs = 1-2 columns + one Key.Literal at any '
+    'position, positional or keyword) over all size sequences of length <= 3 over sizes '
+    '0..3 x 7 literals (scalar, list, tuple, array, empty list) x 7 (a, b), plus random '
+    'cases of which 35% have every input batch as long as the literal')
 ASSUMPTIONS = [
     'the stream is passed as an iterator (the signature says Iterator; a list is '
     'double-counted by the num_columns inference and is not generated)',
@@ -73,8 +87,30 @@ ASSUMPTIONS = [
     'single output is ambiguous with multiple outputs by documented convention and is not '
     'generated); fn_batch_size > 0 only together with batch_size > 0 (constructor '
     'contract); batch_size=0 means pass-through',
-    'Assign (assign(..., batch_size=)) is not exercised: its outputs are zipped with the '
-    'input batches and therefore must keep the input partition',
+    'assign(out_keys, fn, input_keys, fn_batch_size=, batch_size=) (assign sub-check): '
+    'input records are batches {k0[, k1], zz} of arbitrary sizes (0 included), one '
+    'assigned column per input column (fn adds OFFSET, or no fn); demanded: every input '
+    'row is emitted exactly once and in order, all columns of an emitted record have the '
+    'same length and row i of the assigned columns belongs to row i of the input '
+    'columns; NOT demanded: how the rows are cut into records, how often the fn is '
+    'called; accepted instead of a result: ValueError / TypeError when a pipeline with '
+    'batch_size is built, or one raised while iterating whose text names the batch size '
+    '/ row mismatch (words: batch_size, batch size, mismatch, misalign, rows)',
+    'ignore_error sub-check (bad records): the skippable errors are TypeError / '
+    'ValueError only (records that are a list / tuple instead of a dict, a None or '
+    'scalar column, two columns of different lengths); the fn is strict (raises '
+    'TypeError for a column that is not a list / tuple / >= 1-D array and ValueError for '
+    'columns of different lengths), so that without fn_batch_size exactly the bad '
+    'records are skipped - this twin run is checked first and a failing twin gets a '
+    'mechanism key of its own; fn_batch_size > 0 and batch_size > 0; demanded: the rows '
+    'of the good records, once, in order, aligned - not how they are cut into batches; '
+    'records raising KeyError (missing key, str / int / None record) are not generated '
+    '(KeyError is not skippable)',
+    'Literal inputs: a Key.Literal is generated only as an input of a fn (positional or '
+    'by keyword, at any position); value = int scalar, list / tuple / 1-D int64 array '
+    'of length 0..5, also of exactly the length of every input batch; a Literal among '
+    'the OUTPUTS of a fn-less apply / select with batch_size (a constant that would '
+    'have to be re-batched as a column) is not generated',
     'several fn outputs into one output key (multi_out): the fn returns an exact tuple '
     'of >= 2 equal-length columns (the documented multiple-return convention, so the '
     'single-tuple-output ambiguity does not arise); the output key is the default SELF '
@@ -100,7 +136,13 @@ REQUIRED = ['direct_checks', 'concat_checks', 'size_checks', 'alignment_checks',
             'multi_output_checks', 'multi_output_rebatch_checks', 'threaded_checks',
             'threaded_multi_worker_checks', 'threaded_two_workers_seen',
             'iterate_fn_checks', 'iterate_fn_multithread_checks',
-            'iterate_fn_inverted_completion_checks']
+            'iterate_fn_inverted_completion_checks',
+            'assign_checks', 'assign_batch_size_checks', 'assign_fn_batch_checks',
+            'assign_misfit_checks', 'bad_record_checks', 'bad_record_twin_checks',
+            'bad_record_selection_error_checks', 'bad_record_none_column_checks',
+            'bad_record_scalar_column_checks', 'bad_record_unequal_columns_checks',
+            'literal_checks', 'literal_fn_batch_checks', 'literal_scalar_checks',
+            'literal_sequence_checks', 'literal_batch_length_checks']
 EXHAUSTIVE = {'quick': True, 'thorough': True}
 CHUNK_TIMEOUT_S = {'quick': 240, 'thorough': 3000}
 
@@ -1097,6 +1139,593 @@ def _run_iterate_fn(ctx, cnt, spec):
 
 
 # ---------------------------------------------------------------------------
+# assign(..., batch_size= / fn_batch_size=) over input batches of arbitrary sizes
+# ---------------------------------------------------------------------------
+
+MECH_ASSIGN = 'assign-batch-size-outputs-paired-with-unrebatched-inputs'
+MECH_TRUNC = 'ignored-error-inside-input-rebatcher-truncates-stream'
+MECH_LITERAL = 'literal-input-rebatched-as-column'
+ZZ = 9              # column id of the untouched by-stander column 'zz'
+FOREIGN = 7         # column id of the cells of a bad record (must never be emitted)
+
+_SIZE_WORDS = ('batch_size', 'batch size', 'mismatch', 'misalign', 'rows')
+
+
+def _error_chain(e):
+  out, seen = [], set()
+  while e is not None and id(e) not in seen:
+    seen.add(id(e))
+    out.append(f'{type(e).__name__}: {e}')
+    e = e.__cause__ or e.__context__
+  return out
+
+
+def _names_size_mismatch(e):
+  """A ValueError / TypeError whose text talks about batch sizes / row counts."""
+  if not isinstance(e, (ValueError, TypeError)):
+    return False
+  text = ' '.join(_error_chain(e)).lower()
+  return any(w in text for w in _SIZE_WORDS)
+
+
+def check_assign(ctx, cnt, case):
+  """assign(out_keys, fn, input_keys, fn_batch_size=a, batch_size=b).
+
+  case: sizes (rows per input record), cols (1|2 input = assigned columns), kind,
+  fnkind ('map': one assigned column per input column, value + OFFSET; 'none': no
+  fn, the selected columns are assigned as they are), a, b.
+  Demanded: every input row is emitted exactly once and in order, all columns of an
+  emitted record (inputs k*, by-stander zz, assigned o*) have the same length and
+  row i of every assigned column belongs to row i of the input columns. NOT demanded:
+  how the rows are cut into records. Accepted instead: a ValueError / TypeError when
+  the pipeline is built with batch_size, or one raised while iterating whose text
+  names the batch size / row count mismatch.
+  Input class of MECH_ASSIGN ('misfit'): batch_size > 0 and the input partition is
+  not the partition that re-batching to batch_size produces; symptom: the emitted
+  records are exactly 'input batch j + j-th chunk of the re-batched outputs', or the
+  IndexError('No element left.') of the input recital.
+  """
+  from ml_metrics._src.chainables import transform
+  sizes, cols, kind = list(case['sizes']), case['cols'], case['kind']
+  a, b, fnkind = case['a'], case['b'], case['fnkind']
+  n = sum(sizes)
+  misfit = bool(b) and sizes != _chunks(n, b)
+  cls = 'misfit' if misfit else ('fit' if b else 'nobatch')
+  ctx.case(('assign', tuple(sizes), cols, kind, fnkind, a, b,
+            case.get('scalar_keys', False)), len(sizes) >= 2 and misfit)
+  cnt.add('assign_checks')
+  if b:
+    cnt.add('assign_batch_size_checks')
+  if a:
+    cnt.add('assign_fn_batch_checks')
+  if misfit:
+    cnt.add('assign_misfit_checks')
+  in_keys = tuple(f'k{c}' for c in range(cols))
+  out_keys = tuple(f'o{c}' for c in range(cols))
+  stream, pos = [], 0
+  for bt, sz in zip(_mk_batches(sizes, cols, kind), sizes):
+    stream.append(dict(zip(in_keys, bt), zz=_mk_col('list', ZZ, pos, sz)))
+    pos += sz
+  offset = OFFSET if fnkind == 'map' else 0
+  kwargs = {'fn_batch_size': a, 'batch_size': b}
+  if fnkind == 'map':
+    kwargs['fn'] = lambda *columns: tuple(_add_offset(c) for c in columns)
+  ik, ok = in_keys, out_keys
+  if cols == 1 and case.get('scalar_keys'):
+    ik, ok = in_keys[0], out_keys[0]
+
+  def report(symptom, detail, audited):
+    mech = MECH_ASSIGN if (misfit and audited) else f'assign-{cls}:{symptom}'
+    _violation(ctx, 'assign_batch_size', case, dict(detail, symptom=symptom,
+                                                    input_class=cls), mech)
+
+  try:
+    runner = transform.TreeTransform().assign(ok, input_keys=ik, **kwargs).make()
+  except Exception as e:  # pylint: disable=broad-exception-caught
+    if b and isinstance(e, (ValueError, TypeError)):
+      cnt.add('assign_batch_size_rejected_when_built')
+      return
+    report('build_raised', {'error': _error_chain(e)[:3]}, False)
+    return
+  try:
+    out = list(runner.iterate(iter(stream)))
+  except Exception as e:  # pylint: disable=broad-exception-caught
+    if misfit and _names_size_mismatch(e):
+      cnt.add('assign_size_mismatch_reported')
+      return
+    unrelated = isinstance(e, IndexError) and 'No element left' in str(e)
+    report('raised_unrelated_IndexError' if unrelated else f'raised_{type(e).__name__}',
+           {'error': _error_chain(e)[:3]}, unrelated)
+    return
+  cnt.add('alignment_checks')
+  want_keys = sorted(in_keys + out_keys + ('zz',))
+  if misfit:
+    # Signature of the audited defect: record j = input batch j with the j-th
+    # chunk of the outputs re-batched to b, as many records as the shorter of
+    # the two streams has (more chunks than inputs ends in the IndexError).
+    zipped, starts, opos = [], [sum(sizes[:j]) for j in range(len(sizes))], 0
+    for j, (sz, ch) in enumerate(zip(sizes, _chunks(n, b))):
+      rec = {'zz': list(range(M * ZZ + starts[j], M * ZZ + starts[j] + sz))}
+      for c in range(cols):
+        rec[f'k{c}'] = list(range(M * c + starts[j], M * c + starts[j] + sz))
+        rec[f'o{c}'] = list(range(M * c + opos + offset, M * c + opos + ch + offset))
+      zipped.append(rec)
+      opos += ch
+    try:
+      got_recs = [{k: _tolist(v) for k, v in o.items()} for o in out]
+    except Exception:  # pylint: disable=broad-exception-caught
+      got_recs = None
+    signature = got_recs == zipped
+  else:
+    signature = False
+  rows = []
+  for j, o in enumerate(out):
+    if not isinstance(o, dict) or sorted(o.keys()) != want_keys:
+      report('output_keys', {'record': j, 'got': repr(o)[:200], 'want_keys': want_keys},
+             False)
+      return
+    try:
+      colsl = {k: _tolist(o[k]) for k in want_keys}
+    except Exception as e:  # pylint: disable=broad-exception-caught
+      report('bad_output_container', {'record': j, 'error': repr(e)[:200]}, False)
+      return
+    lens = {k: len(v) for k, v in colsl.items()}
+    if len(set(lens.values())) > 1:
+      report('column_lengths_differ', {'record': j, 'lengths': lens,
+                                       'emitted': repr(out)[:400]}, signature)
+      return
+    for i in range(lens['zz']):
+      g = colsl['zz'][i] - M * ZZ
+      if not (all(colsl[f'k{c}'][i] == M * c + g for c in range(cols)) and
+              all(colsl[f'o{c}'][i] == M * c + g + offset for c in range(cols))):
+        report('rows_misaligned', {'record': j, 'row': i,
+                                   'cells': {k: v[i] for k, v in colsl.items()},
+                                   'emitted': repr(out)[:400]}, signature)
+        return
+      rows.append(g)
+  if rows != list(range(n)):
+    report('rows_not_conserved',
+           {'emitted_rows': rows[:40], 'input_rows': n,
+            'lost': [g for g in range(n) if g not in rows][:20],
+            'emitted': repr(out)[:400]}, signature)
+
+
+_ASSIGN_AB = ((0, 0), (0, 1), (0, 2), (0, 3), (2, 2), (2, 3), (3, 2), (1, 3))
+
+
+def _seqs(prefix, smax, maxlen):
+  if prefix is None:
+    return [[]]
+  out = []
+  for length in range(len(prefix), maxlen + 1):
+    for tail in itertools.product(range(smax + 1), repeat=length - len(prefix)):
+      out.append(list(prefix) + list(tail))
+  return out
+
+
+def _run_assign_sweep(ctx, cnt, spec):
+  for sizes in _seqs(spec['prefix'], spec['smax'], spec['maxlen']):
+    for kind in KINDS:
+      for cols in (1, 2):
+        for fnkind in ('map', 'none'):
+          for a, b in _ASSIGN_AB:
+            if a and fnkind == 'none':
+              continue
+            check_assign(ctx, cnt, {
+                'api': 'assign', 'sizes': sizes, 'cols': cols, 'kind': kind,
+                'fnkind': fnkind, 'a': a, 'b': b, 'scalar_keys': (a + b) % 2 == 0})
+
+
+def _run_assign_random(ctx, cnt, spec):
+  rng = random.Random(spec['rseed'] * 86028121 + spec['index'] * 49979687 + 23)
+  big = spec['tier'] == 'thorough'
+  for _ in range(spec['count']):
+    length = rng.choice([rng.randint(0, 5), rng.randint(0, 30 if big else 10)])
+    smax = rng.choice([3, 6, 30 if big else 12])
+    b = rng.choice([0, 1, 2, 3, 4, 7, 16])
+    r = rng.random()
+    if b and r < 0.35:
+      # the input already has the partition of the target (control class 'fit')
+      sizes = _chunks(rng.randint(0, 40), b)
+    else:
+      zero_p = rng.choice([0.0, 0.0, 0.2])
+      sizes = [0 if rng.random() < zero_p else rng.randint(1, smax)
+               for _ in range(length)]
+    fnkind = rng.choice(['map', 'map', 'none'])
+    a = rng.choice([0, 1, 2, 3, 5, 8]) if (b and fnkind == 'map') else 0
+    check_assign(ctx, cnt, {
+        'api': 'assign', 'sizes': sizes, 'cols': rng.randint(1, 2),
+        'kind': rng.choice(['list', 'tuple', 'array', 'mixed']), 'fnkind': fnkind,
+        'a': a, 'b': b, 'scalar_keys': rng.random() < 0.5})
+
+
+# ---------------------------------------------------------------------------
+# ignore_error + fn_batch_size: records that fail INSIDE the input re-batcher
+# ---------------------------------------------------------------------------
+
+BAD_KINDS = ('selection_error_list', 'selection_error_tuple', 'none_column',
+             'scalar_column', 'unequal_columns')
+
+
+def _bad_record(badkind, cols, badcol, nth):
+  """A record whose input selection / column validation raises a skippable error.
+
+  Its cells carry ids of column FOREIGN, which must never be emitted.
+  """
+  lo = M * FOREIGN + 10 * nth
+  if badkind == 'selection_error_list':
+    return [lo]                       # a list has no key 'k0': TypeError
+  if badkind == 'selection_error_tuple':
+    return (lo, lo + 1)
+  rec = {f'k{c}': [lo + 1, lo + 2] for c in range(cols)}
+  rec['zz'] = [0, 0]
+  if badkind == 'none_column':
+    rec[f'k{badcol}'] = None
+  elif badkind == 'scalar_column':
+    rec[f'k{badcol}'] = lo
+  elif badkind == 'unequal_columns':
+    rec[f'k{badcol}'] = [lo + 1, lo + 2, lo + 3]
+  else:
+    raise ValueError(badkind)
+  return rec
+
+
+def _strict_offset_fn(*columns):
+  """Adds OFFSET; rejects what is not a batch of equally long columns."""
+  import numpy as np
+  lens = set()
+  for c in columns:
+    if isinstance(c, np.ndarray):
+      if c.ndim == 0:
+        raise TypeError('column is not a sequence')
+    elif type(c) not in (list, tuple):
+      raise TypeError(f'column is not a sequence: {type(c).__name__}')
+    lens.add(len(c))
+  if len(lens) > 1:
+    raise ValueError(f'columns of different lengths: {sorted(lens)}')
+  return tuple(_add_offset(c) for c in columns)
+
+
+def _run_ignore_error(recs_stream, cols, a, b, scalar_keys):
+  from ml_metrics._src.chainables import transform
+  in_keys = tuple(f'k{c}' for c in range(cols))
+  out_keys = tuple(f'o{c}' for c in range(cols))
+  ik, ok = in_keys, out_keys
+  if cols == 1 and scalar_keys:
+    ik, ok = in_keys[0], out_keys[0]
+  t = transform.TreeTransform().apply(fn=_strict_offset_fn, input_keys=ik,
+                                      output_keys=ok, fn_batch_size=a, batch_size=b)
+  return list(t.make().iterate(iter(recs_stream), ignore_error=True))
+
+
+def _good_rows(out, cols):
+  """Emitted rows (global ids) or (None, symptom, detail)."""
+  out_keys = [f'o{c}' for c in range(cols)]
+  rows = []
+  for j, o in enumerate(out):
+    if not isinstance(o, dict) or sorted(o.keys()) != out_keys:
+      return None, 'output_keys', {'record': j, 'got': repr(o)[:200]}
+    colsl = [_tolist(o[k]) for k in out_keys]
+    if len({len(c) for c in colsl}) > 1:
+      return None, 'column_lengths_differ', {'record': j,
+                                              'lengths': [len(c) for c in colsl]}
+    for i in range(len(colsl[0])):
+      gs = {colsl[c][i] - M * c - OFFSET for c in range(cols)}
+      if len(gs) > 1:
+        return None, 'rows_misaligned', {'record': j, 'row': i,
+                                          'cells': [c[i] for c in colsl]}
+      rows.append(gs.pop())
+  return rows, None, None
+
+
+def check_bad_record(ctx, cnt, case):
+  """apply(fn, fn_batch_size=a, batch_size=b) under ignore_error=True over a stream
+  with records that raise a skippable error before the fn is reached.
+
+  case: recs = list of int (a good record with that many rows) | str (a bad record
+  of that BAD_KINDS kind), cols, kind, badcol, a > 0, b > 0.
+  Oracle: plain Python - the rows of the good records, in order, aligned; checked
+  first on the twin pipeline WITHOUT fn_batch_size (same batch_size), which skips
+  exactly the bad records, then demanded from the pipeline with fn_batch_size.
+  """
+  recs, cols, kind = case['recs'], case['cols'], case['kind']
+  a, b, badcol = case['a'], case['b'], case.get('badcol', 0)
+  ctx.case(('badrec', tuple(recs), cols, kind, badcol, a, b,
+            case.get('scalar_keys', False)), True)
+  in_keys = tuple(f'k{c}' for c in range(cols))
+  stream, pos, nbad, first_bad_rows = [], 0, 0, None
+  for r in recs:
+    if isinstance(r, str):
+      if first_bad_rows is None:
+        first_bad_rows = pos
+      stream.append(_bad_record(r, cols, badcol, nbad))
+      nbad += 1
+    else:
+      cells = tuple(_mk_col(_col_kind(kind, c), c, pos, r) for c in range(cols))
+      stream.append(dict(zip(in_keys, cells), zz=_mk_col('list', ZZ, pos, r)))
+      pos += r
+  want = list(range(pos))
+  in_class = bool(a) and nbad > 0
+  cnt.add('bad_record_checks')
+  for bk in sorted({r for r in recs if isinstance(r, str)}):
+    name = 'selection_error' if bk.startswith('selection_error') else bk
+    cnt.add(f'bad_record_{name}_checks')
+
+  def report(which, symptom, detail, audited=False):
+    if which == 'twin':
+      mech = f'ignored-error-without-fn-batch-size:{symptom}'
+    else:
+      mech = MECH_TRUNC if (in_class and audited) else f'ignored-error-in-rebatcher:{symptom}'
+    _violation(ctx, 'ignored_error_rebatch', case,
+               dict(detail, symptom=symptom, pipeline=which, want_rows=want[:40]), mech)
+
+  for which, aa in (('twin', 0), ('fn_batch_size', a)):
+    try:
+      out = _run_ignore_error(stream, cols, aa, b, case.get('scalar_keys', False))
+    except Exception as e:  # pylint: disable=broad-exception-caught
+      report(which, f'raised_{type(e).__name__}', {'error': _error_chain(e)[:3]})
+      return
+    try:
+      rows, symptom, detail = _good_rows(out, cols)
+    except Exception as e:  # pylint: disable=broad-exception-caught
+      rows, symptom, detail = None, 'bad_output_container', {'error': repr(e)[:200]}
+    if rows is None:
+      report(which, symptom, dict(detail, emitted=repr(out)[:300]))
+      return
+    if which == 'twin':
+      cnt.add('bad_record_twin_checks')
+    if rows != want:
+      # The audited symptom: the stream simply ends at the first bad record (the
+      # rows waiting in the re-batching buffer are lost with all later ones).
+      truncated = (len(rows) < len(want) and rows == want[:len(rows)]
+                   and first_bad_rows is not None and len(rows) <= first_bad_rows)
+      report(which, 'stream_ends_at_bad_record' if truncated else 'rows_differ',
+             {'emitted_rows': rows[:40], 'rows_before_first_bad_record': first_bad_rows,
+              'lost': [g for g in want if g not in rows][:20]}, truncated)
+      return
+
+
+_BAD_AB = ((2, 2), (3, 2), (2, 3), (4, 1))
+
+
+def _run_bad_sweep(ctx, cnt, spec):
+  """All record sequences of length 1..maxlen over {1 row, 2 rows, bad}, >= 1 bad."""
+  n = 0
+  for length in range(1, spec['maxlen'] + 1):
+    for seq in itertools.product((1, 2, 'B'), repeat=length):
+      if 'B' not in seq:
+        continue
+      for bi, badkind in enumerate(BAD_KINDS):
+        for a, b in _BAD_AB:
+          n += 1
+          cols = 2 if badkind == 'unequal_columns' else 1 + n % 2
+          check_bad_record(ctx, cnt, {
+              'api': 'badrec', 'recs': [badkind if r == 'B' else r for r in seq],
+              'cols': cols, 'kind': KINDS[n % 3], 'badcol': (n // 2) % cols,
+              'a': a, 'b': b, 'scalar_keys': n % 4 == 0})
+
+
+def _run_bad_random(ctx, cnt, spec):
+  rng = random.Random(spec['rseed'] * 67867967 + spec['index'] * 15485867 + 29)
+  for _ in range(spec['count']):
+    length = rng.randint(1, 12)
+    cols = rng.randint(1, 2)
+    kinds = [k for k in BAD_KINDS if cols == 2 or k != 'unequal_columns']
+    p_bad = rng.choice([0.1, 0.25, 0.5])
+    recs = [rng.choice(kinds) if rng.random() < p_bad else rng.randint(1, 5)
+            for _ in range(length)]
+    if not any(isinstance(r, str) for r in recs):
+      recs[rng.randrange(length)] = rng.choice(kinds)
+    check_bad_record(ctx, cnt, {
+        'api': 'badrec', 'recs': recs, 'cols': cols,
+        'kind': rng.choice(['list', 'tuple', 'array', 'mixed']),
+        'badcol': rng.randrange(cols), 'a': rng.choice([1, 2, 3, 5, 8]),
+        'b': rng.choice([1, 2, 3, 4, 7]), 'scalar_keys': rng.random() < 0.5})
+
+
+# ---------------------------------------------------------------------------
+# Key.Literal inputs of a function that is called with fn_batch_size
+# ---------------------------------------------------------------------------
+
+
+def _mk_literal(lit):
+  import numpy as np
+  t, ln = lit['type'], lit.get('len', 0)
+  if t == 'scalar':
+    return 7
+  vals = list(range(1, ln + 1))
+  if t == 'list':
+    return vals
+  if t == 'tuple':
+    return tuple(vals)
+  if t == 'array':
+    return np.asarray(vals, dtype=np.int64)
+  raise ValueError(t)
+
+
+def _lit_desc(v):
+  import numpy as np
+  if isinstance(v, np.ndarray):
+    return ['array', v.tolist()]
+  if type(v) in (list, tuple):
+    return [type(v).__name__, list(v)]
+  return [type(v).__name__, v if type(v) is int else repr(v)[:80]]
+
+
+def _is_resliced(w, value):
+  kind, elems = _lit_desc(value)
+  wkind, welems = _lit_desc(w)
+  if (kind == 'int' or wkind != kind or not elems or not isinstance(welems, list)
+      or not welems):
+    return False
+  return any(all(x == elems[(o + i) % len(elems)] for i, x in enumerate(welems))
+             for o in range(len(elems)))
+
+
+def check_literal(ctx, cnt, case):
+  """apply(fn, input_keys=(columns..., Key.Literal(v)), fn_batch_size=a, batch_size=b).
+
+  case: sizes, cols (row columns), kind, lit {'type': scalar|list|tuple|array, 'len'},
+  pos (position of the literal among the inputs), kw (inputs passed by keyword), a, b.
+  The fn adds OFFSET + sum(literal) to every cell and records the literal it got.
+  Oracle: the literal is a constant - the fn receives exactly `v` on every call and
+  the emitted stream is the id lists (+ OFFSET + sum(v)) cut by plain Python into
+  _chunks(N, b), i.e. what the same pipeline gives without fn_batch_size.
+  """
+  import numpy as np
+  from ml_metrics._src.chainables import transform
+  from ml_metrics._src.chainables import tree as tl
+  sizes, cols, kind = list(case['sizes']), case['cols'], case['kind']
+  a, b, lit, lpos, kw = case['a'], case['b'], case['lit'], case['pos'], case.get('kw')
+  n = sum(sizes)
+  value = _mk_literal(lit)
+  shift = int(np.sum(value))
+  batch_len = (lit['type'] != 'scalar' and len(sizes) >= 1
+               and all(s == lit['len'] for s in sizes))
+  ctx.case(('literal', tuple(sizes), cols, kind, lit['type'], lit.get('len'), lpos,
+            bool(kw), a, b), len(sizes) >= 2 and bool(a))
+  cnt.add('literal_checks')
+  if a:
+    cnt.add('literal_fn_batch_checks')
+    cnt.add('literal_scalar_checks' if lit['type'] == 'scalar'
+            else 'literal_sequence_checks')
+    if batch_len:
+      cnt.add('literal_batch_length_checks')
+  in_class = bool(a)
+  cls = 'fn-batch' if a else 'no-fn-batch'
+  batches = _mk_batches(sizes, cols, kind)
+  in_keys = tuple(f'k{c}' for c in range(cols))
+  out_keys = tuple(f'o{c}' for c in range(cols))
+  stream = [dict(zip(in_keys, bt), zz=list(range(len(bt[0])))) for bt in batches]
+  seen, calls = [], []
+
+  def core(columns, w):
+    seen.append(w)
+    calls.append([len(c) for c in columns])
+    return tuple(_shift(c, OFFSET + int(np.sum(w))) for c in columns)
+
+  keys = list(in_keys)
+  keys.insert(lpos, tl.Key.Literal(value))
+  if kw:
+    names = [f'x{c}' for c in range(cols)]
+    names.insert(lpos, 'w')
+    input_keys = dict(zip(names, keys))
+
+    def fn(**kwargs):
+      return core([kwargs[f'x{c}'] for c in range(cols)], kwargs['w'])
+  else:
+    input_keys = tuple(keys)
+
+    def fn(*args):
+      args = list(args)
+      w = args.pop(lpos)
+      return core(args, w)
+
+  def report(symptom, detail, audited):
+    mech = MECH_LITERAL if (in_class and audited) else f'literal-input-{cls}:{symptom}'
+    _violation(ctx, 'literal_input', case,
+               dict(detail, symptom=symptom, literal=_lit_desc(value)), mech)
+
+  try:
+    t = transform.TreeTransform().apply(fn=fn, input_keys=input_keys,
+                                        output_keys=out_keys, fn_batch_size=a,
+                                        batch_size=b)
+    out = list(t.make().iterate(iter(stream)))
+  except Exception as e:  # pylint: disable=broad-exception-caught
+    chain = _error_chain(e)
+    # The INPUT re-batcher measured / concatenated the constant as if it were a
+    # column: it cannot take the length of a scalar, or finds cols + 1 "columns"
+    # of which only the one at the literal's position disagrees with the others.
+    audited = False
+    if lit['type'] == 'scalar':
+      audited = (type(e) is TypeError and 'Non sequence type' in str(e)
+                 and "<class 'int'>" in str(e))
+    elif type(e) is ValueError and 'Hetroegeneous columns' in str(e):
+      found = re.search(r'batch_sizes=array\(\[([^\]]*)\]\)', str(e))
+      nums = [int(x) for x in re.findall(r'-?\d+', found.group(1))] if found else []
+      # (the literal's slot may also carry the remainder of an earlier slice)
+      others = [x for i, x in enumerate(nums) if i != lpos]
+      audited = (len(nums) == cols + 1 and len(set(others)) == 1
+                 and nums[lpos] != others[0])
+    report('rebatcher_rejects_literal' if audited else f'raised_{type(e).__name__}',
+           {'error': chain[:3]}, audited)
+    return
+  bad = [w for w in seen if _lit_desc(w) != _lit_desc(value)]
+  if bad:
+    # Signature of the audited defect: the constant was concatenated once per
+    # merged input batch and sliced like a column, so what the fn gets is a
+    # run of the literal's elements repeated cyclically, in the same container.
+    resliced = all(_is_resliced(w, value) for w in bad)
+    report('fn_received_resliced_literal' if resliced else 'fn_received_foreign_value',
+           {'received': [_lit_desc(w) for w in bad[:4]], 'calls': len(seen)}, resliced)
+    return
+  fn_sizes = _chunks(n, a) if a else sizes
+  cnt.add('fn_batch_checks')
+  if calls != [[s] * cols for s in fn_sizes]:
+    report('fn_batch_sizes', {'got': calls[:30], 'want': fn_sizes[:30]}, False)
+    return
+  sizes_out = _chunks(n, b) if b else fn_sizes
+  try:
+    for o in out:
+      if not isinstance(o, dict) or sorted(o.keys()) != sorted(out_keys):
+        report('output_keys', {'got': repr(o)[:200]}, False)
+        return
+    got = [[_tolist(o[k]) for k in out_keys] for o in out]
+  except Exception as e:  # pylint: disable=broad-exception-caught
+    report('bad_output_container', {'error': repr(e)[:200]}, False)
+    return
+  cnt.add('alignment_checks')
+  cnt.add('size_checks')
+  if got != _expected(sizes_out, cols, kind, None, b, OFFSET + shift):
+    if b:
+      symptom, detail = _diagnose(got, sizes_out, cols, kind, None, b, OFFSET + shift)
+    else:
+      symptom, detail = 'passthrough_differs', {
+          'got_sizes': [[len(c) for c in bb] for bb in got][:20], 'want': sizes_out}
+    report(symptom, detail, False)
+
+
+_LITERALS = ({'type': 'scalar'}, {'type': 'list', 'len': 2}, {'type': 'list', 'len': 3},
+             {'type': 'tuple', 'len': 2}, {'type': 'array', 'len': 2},
+             {'type': 'array', 'len': 1}, {'type': 'list', 'len': 0})
+_LIT_AB = ((0, 0), (0, 2), (1, 2), (2, 2), (3, 2), (4, 4), (2, 3))
+
+
+def _run_literal_sweep(ctx, cnt, spec):
+  n = 0
+  for sizes in _seqs(spec['prefix'], spec['smax'], spec['maxlen']):
+    for lit in _LITERALS:
+      for a, b in _LIT_AB:
+        n += 1
+        cols = 1 + n % 2
+        check_literal(ctx, cnt, {
+            'api': 'literal', 'sizes': sizes, 'cols': cols, 'kind': KINDS[n % 3],
+            'lit': lit, 'pos': (n // 2) % (cols + 1), 'kw': n % 5 == 0, 'a': a, 'b': b})
+
+
+def _run_literal_random(ctx, cnt, spec):
+  rng = random.Random(spec['rseed'] * 32452867 + spec['index'] * 982451653 + 31)
+  for _ in range(spec['count']):
+    r = rng.random()
+    ltype = rng.choice(['scalar', 'list', 'list', 'tuple', 'array'])
+    if r < 0.35 and ltype != 'scalar':
+      # every input batch is exactly as long as the literal
+      ln = rng.randint(1, 4)
+      sizes = [ln] * rng.randint(1, 8)
+    else:
+      ln = rng.randint(0, 5)
+      sizes = [rng.randint(0, 6) for _ in range(rng.randint(0, 10))]
+    a = rng.choice([0, 1, 2, 3, 4, 5, 8, 12])
+    b = rng.choice([1, 2, 3, 4, 7, 16] + ([0] if not a else []))
+    cols = rng.randint(1, 2)
+    lit = {'type': ltype} if ltype == 'scalar' else {'type': ltype, 'len': ln}
+    check_literal(ctx, cnt, {
+        'api': 'literal', 'sizes': sizes, 'cols': cols,
+        'kind': rng.choice(['list', 'tuple', 'array', 'mixed']), 'lit': lit,
+        'pos': rng.randint(0, cols), 'kw': rng.random() < 0.25, 'a': a, 'b': b})
+
+
+# ---------------------------------------------------------------------------
 # Ragged input (columns of one input tuple with unequal lengths)
 # ---------------------------------------------------------------------------
 
@@ -1264,10 +1893,26 @@ def plan(tier, seed):
                      'count': 1500 if thorough else 120})
     threaded.append({'mode': 'iterate_fn', 'rseed': seed, 'index': i,
                      'count': 1500 if thorough else 100})
+  # second widening: assign with batch_size, bad records under ignore_error with
+  # fn_batch_size, Literal inputs with fn_batch_size
+  wsmax, wmaxlen = (4, 4) if thorough else (3, 3)
+  widened = []
+  for mode in ('assign', 'literal'):
+    widened.append({'mode': mode, 'prefix': None, 'smax': wsmax, 'maxlen': wmaxlen})
+    for p in range(wsmax + 1):
+      widened.append({'mode': mode, 'prefix': [p], 'smax': wsmax, 'maxlen': wmaxlen})
+  widened.append({'mode': 'badrec', 'maxlen': 5 if thorough else 4})
+  for i in range(8 if thorough else 1):
+    for mode, count in (('assign_random', 500), ('badrec_random', 400),
+                        ('literal_random', 500)):
+      widened.append({'mode': mode, 'rseed': seed, 'index': i,
+                      'count': count * (8 if thorough else 1)})
   # Started first: the sleeping / barrier cases need wall time, not CPU, and the
   # first witnesses of a run then cover every widened input class.
-  first = [threaded[1], threaded[-1], multi[2]]
-  rest = [x for x in threaded + multi if not any(x is f for f in first)]
+  first = [threaded[1], threaded[-1], multi[2]] + [
+      next(w for w in widened if w['mode'] == mode and w.get('prefix', [1]) == [1])
+      for mode in ('assign', 'badrec', 'literal')]
+  rest = [x for x in threaded + multi + widened if not any(x is f for f in first)]
   specs = first + rest + specs
   nrand = 48 if thorough else 4
   for i in range(nrand):
@@ -1314,6 +1959,18 @@ def run_chunk(ctx, spec):
       _run_threaded_random(ctx, cnt, spec)
     elif mode == 'iterate_fn':
       _run_iterate_fn(ctx, cnt, spec)
+    elif mode == 'assign':
+      _run_assign_sweep(ctx, cnt, spec)
+    elif mode == 'assign_random':
+      _run_assign_random(ctx, cnt, spec)
+    elif mode == 'badrec':
+      _run_bad_sweep(ctx, cnt, spec)
+    elif mode == 'badrec_random':
+      _run_bad_random(ctx, cnt, spec)
+    elif mode == 'literal':
+      _run_literal_sweep(ctx, cnt, spec)
+    elif mode == 'literal_random':
+      _run_literal_random(ctx, cnt, spec)
     elif mode == 'ragged_sweep':
       _run_ragged_sweep(ctx, cnt, spec)
     elif mode == 'ragged_random':
@@ -1344,6 +2001,12 @@ def run_case(ctx, case):
       check_threaded(ctx, cnt, case)
     elif api == 'iterate_fn':
       check_iterate_fn(ctx, cnt, case)
+    elif api == 'assign':
+      check_assign(ctx, cnt, case)
+    elif api == 'badrec':
+      check_bad_record(ctx, cnt, case)
+    elif api == 'literal':
+      check_literal(ctx, cnt, case)
     else:
       check_pipeline(ctx, cnt, case)
   finally:
